@@ -359,6 +359,44 @@ Proof.
 Qed.
 Print Assumptions C18_bp_response_is_product.
 
+(* dft with sample positions: xscale = 0 .. N-1 (what xscale=None stands for) gives the
+   coefficients at the requested bins; general integer positions xs[n] enter the
+   exponent as om^(xs[n] * k_j mod N) (dft_xk, by definition). *)
+Theorem C18_dft_xscale_default :
+  forall (R : Type) (rO rI : R) (radd rmul rsub : R -> R -> R) (ropp : R -> R)
+         (rdiv : R -> R -> R) (rinv : R -> R),
+  field_theory rO rI radd rmul rsub ropp rdiv rinv (@eq R) ->
+  forall (N : nat) (om : R),
+  (0 < N)%nat -> rpow R rI rmul om N = rI ->
+  forall (x : list R) (ks : list Z),
+  dft_xk R rO rI radd rmul om N x (map Z.of_nat (seq 0 N)) ks = dft_bins R rO rI radd rmul om N x ks.
+Proof. exact dft_xk_default. Qed.
+Print Assumptions C18_dft_xscale_default.
+
+(* String-valued options.  convolve: exactly "full" and "same" are modes (case
+   sensitive); with them convolve_py is the 'full' / 'same' result of the theorems
+   above; any other mode string returns None (when the padded size exists).
+   Filters: exactly "bp" is the band-pass; "hp"/"highpass" and "lp"/"lowpass" in any
+   letter case select the taper / its complement; every other string fails. *)
+Theorem C18_option_dispatch :
+  forall (R : Type) (rO rI : R) (radd rmul rsub : R -> R -> R) (om omi invN : R)
+         (cc : nat -> list R -> list R -> list R) (conj : R -> R) (N : nat) (x w c1 c2 ts : list R) (s : list Z),
+  (convolve_py R rO cc s_full x w = match convolve_full_with R rO cc x w with Some l => Ret l | None => Raise end) /\
+  (convolve_full_with R rO cc x w <> None ->
+   convolve_py R rO cc s_same x w = match convolve_same_with R rO cc x w with Some l => Ret l | None => Raise end) /\
+  (mode_class s = MOther -> convolve_full_with R rO cc x w <> None -> convolve_py R rO cc s x w = RetNone) /\
+  (mode_class s = MFull <-> s = s_full) /\ (mode_class s = MSame <-> s = s_same) /\
+  (typ_class s = TBp <-> s = s_bp) /\
+  (typ_class s = TBad -> freq_filter_py R rO rI radd rmul rsub om omi invN conj N s c1 c2 ts = Raise) /\
+  (typ_class s = TLp -> freq_filter_py R rO rI radd rmul rsub om omi invN conj N s c1 c2 ts =
+     match freq_filter R rO rI radd rmul om omi invN conj N (resp_lp R rI rsub c1) ts with Some y => Ret y | None => Raise end) /\
+  (typ_class s = THp -> freq_filter_py R rO rI radd rmul rsub om omi invN conj N s c1 c2 ts =
+     match freq_filter R rO rI radd rmul om omi invN conj N c1 ts with Some y => Ret y | None => Raise end) /\
+  (typ_class s = TBp -> freq_filter_py R rO rI radd rmul rsub om omi invN conj N s c1 c2 ts =
+     match freq_filter R rO rI radd rmul om omi invN conj N (bp_resp R rI rmul rsub c1 c2) ts with Some y => Ret y | None => Raise end).
+Proof. exact option_dispatch. Qed.
+Print Assumptions C18_option_dispatch.
+
 (* ---- fcn_cosine -------------------------------------------------------- *)
 (* Reals: for b0 < b1 the soft threshold is 0 up to b0, 1 from b1 on,
    non-decreasing everywhere and within [0, 1]. *)
@@ -462,3 +500,10 @@ Example C18_example_dft_bins :
   map gview (dft_bins G g0 g1 gadd gmul om4 4 (map (fun z => gq z 0) [1; 2; 3; 4]%Z) [-1; 2; 0]%Z) =
   [(Qmake (-2) 1, Qmake (-2) 1); (Qmake (-2) 1, Qmake 0 1); (Qmake 10 1, Qmake 0 1)].
 Proof. vm_compute. reflexivity. Qed.
+
+Example C18_example_strings :
+  typ_class [72; 105; 103; 104; 80; 97; 115; 115] = THp (* "HighPass" *) /\ typ_class [76; 80] = TLp (* "LP" *) /\
+  typ_class [66; 80] = TBad (* "BP" *) /\ typ_class [98; 112] = TBp /\ typ_class [] = TBad /\
+  mode_class [70; 85; 76; 76] = MOther (* "FULL" *) /\ mode_class [118; 97; 108; 105; 100] = MOther (* "valid" *) /\
+  convolve_py Z 0 (circ_conv Z 0 Z.add Z.mul) [118; 97; 108; 105; 100] [1; 2] [1; 1] = RetNone.
+Proof. vm_compute. repeat split. Qed.
